@@ -50,6 +50,7 @@ VARIABLES proj, srcv, db, primed, byName, disk, nchg,
 
 vars == <<proj, srcv, db, primed, byName, disk, nchg, exposed, last, hist>>
 view == <<proj, srcv, db, primed, byName, disk, nchg, exposed>>
+viewL == <<proj, srcv, db, primed, byName, disk, nchg, exposed, last>>   \* for the reachability configs that look at `last`
 
 Recipes == {RecipeOf[p] : p \in Pkg}
 Names   == Pkg \cup Recipes
@@ -138,9 +139,9 @@ Refreshed ==
 \* recipes changed: state.py:120-146
 Prime ==
   /\ ~primed
-  /\ db' = Refreshed
+  /\ db' = TLCEval(Refreshed)           \* TLCEval: no lazily evaluated sets inside states
   /\ primed' = TRUE
-  /\ last' = [cmd |-> "prime", mode |-> "dev", src |-> FALSE, dry |-> FALSE]
+  /\ last' = [cmd |-> "prime", mode |-> "dev", src |-> FALSE, dry |-> FALSE, del |-> {}]
   /\ hist' = Append(hist, [a |-> "Prime", db |-> db'])
   /\ UNCHANGED <<proj, srcv, byName, disk, nchg, exposed>>
 
@@ -177,17 +178,17 @@ BuildDev ==
   /\ primed
   /\ LET dirOf == [s \in StepSet |-> DevDir(s)]
          r == Visit(StepSeq, dirOf, [dk |-> disk, ex |-> exposed])
-     IN disk' = r.dk /\ exposed' = r.ex
-  /\ last' = [cmd |-> "build", mode |-> "dev", src |-> FALSE, dry |-> FALSE]
+     IN disk' = TLCEval(r.dk) /\ exposed' = r.ex
+  /\ last' = [cmd |-> "build", mode |-> "dev", src |-> FALSE, dry |-> FALSE, del |-> {}]
   /\ hist' = Append(hist, [a |-> "BuildDev"])
   /\ UNCHANGED <<proj, srcv, db, primed, byName, nchg>>
 
 BuildRel ==
-  /\ byName' = AssignRel(StepSeq, byName)
+  /\ byName' = TLCEval(AssignRel(StepSeq, byName))
   /\ LET dirOf == [s \in StepSet |-> Lookup(byName', Digest(s))]
          r == Visit(StepSeq, dirOf, [dk |-> disk, ex |-> exposed])
-     IN disk' = r.dk /\ exposed' = r.ex
-  /\ last' = [cmd |-> "build", mode |-> "rel", src |-> FALSE, dry |-> FALSE]
+     IN disk' = TLCEval(r.dk) /\ exposed' = r.ex
+  /\ last' = [cmd |-> "build", mode |-> "rel", src |-> FALSE, dry |-> FALSE, del |-> {}]
   /\ hist' = Append(hist, [a |-> "BuildRel", byName |-> byName'])
   /\ UNCHANGED <<proj, srcv, db, primed, nchg>>
 
@@ -215,16 +216,16 @@ Clean(m, src, dry) ==
   /\ LET del == ToDelete(m, src)
      IN /\ IF dry /\ "DryDeletes" \notin Weak
            THEN UNCHANGED disk                                                    \* 232-233
-           ELSE disk' = [d \in DirSet |-> IF d \in del THEN Absent                \* 234-238 removePath, delDirectoryState
+           ELSE disk' = TLCEval([d \in DirSet |-> IF d \in del THEN Absent                \* 234-238 removePath, delDirectoryState
                                           ELSE IF ~disk[d].ex THEN Absent         \* 241-242
-                                          ELSE disk[d]]
-        /\ hist' = Append(hist, [a |-> "Clean", mode |-> m, src |-> src, dry |-> dry, del |-> del])
-  /\ last' = [cmd |-> "clean", mode |-> m, src |-> src, dry |-> dry]
+                                          ELSE disk[d]])
+        /\ hist' = Append(hist, [a |-> "Clean", mode |-> m, src |-> src, dry |-> dry, del |-> TLCEval(del)])
+  /\ last' = [cmd |-> "clean", mode |-> m, src |-> src, dry |-> dry, del |-> TLCEval(ToDelete(m, src))]
   /\ UNCHANGED <<proj, srcv, db, primed, byName, nchg, exposed>>
 
 \* clean --develop primes first (clean.py:184)
 CleanDev == primed /\ \E src, dry \in BOOLEAN : Clean("dev", src, dry)
-CleanRel == \E src, dry \in BOOLEAN : Clean("rel", src, dry)
+CleanRel == nchg >= 0 /\ \E src, dry \in BOOLEAN : Clean("rel", src, dry)   \* (conjunct keeps this one action for TLC)
 
 ----------------------------------------------------------------------------
 (* environment: the user edits the recipes *)
@@ -237,7 +238,7 @@ ProjectChange ==
        /\ hist' = Append(hist, [a |-> "ProjectChange", proj |-> p, srcv |-> sv])
   /\ primed' = FALSE
   /\ nchg' = nchg + 1
-  /\ last' = [cmd |-> "edit", mode |-> "dev", src |-> FALSE, dry |-> FALSE]
+  /\ last' = [cmd |-> "edit", mode |-> "dev", src |-> FALSE, dry |-> FALSE, del |-> {}]
   /\ UNCHANGED <<db, byName, disk, exposed>>
 
 Init ==
@@ -245,12 +246,16 @@ Init ==
   /\ db = {} /\ primed = FALSE /\ byName = {}
   /\ disk = [d \in DirSet |-> Absent]
   /\ nchg = 0 /\ exposed = FALSE
-  /\ last = [cmd |-> "init", mode |-> "dev", src |-> FALSE, dry |-> FALSE]
+  /\ last = [cmd |-> "init", mode |-> "dev", src |-> FALSE, dry |-> FALSE, del |-> {}]
   /\ hist = <<>>
 
 Next == ProjectChange \/ Prime \/ BuildDev \/ BuildRel \/ CleanDev \/ CleanRel
 
 Spec == Init /\ [][Next]_vars
+
+\* generation of appear/disappear histories for the directory oracle alone
+NextDev == ProjectChange \/ Prime
+SpecDev == Init /\ [][NextDev]_vars
 
 ----------------------------------------------------------------------------
 (* P layer *)
@@ -303,10 +308,10 @@ NoUpToDateResultLost ==
 ----------------------------------------------------------------------------
 (* vacuity companions: negated reachability, each must be VIOLATED *)
 
-\* a new key is numbered past a kept directory
+\* a new key is numbered past a kept directory: the step visited first got the higher number
 ReachNumberedAround ==
-  ~(primed /\ \E e, f \in db : e[1][3] # f[1][3] /\ e[2][2] = f[2][2] /\ e[2][3] = f[2][3] /\ e[2][4] = 2
-            /\ ~\E g \in db : g[2][2] = e[2][2] /\ g[2][3] = e[2][3] /\ g[2][4] = 1)
+  ~(primed /\ Len(proj) >= 2 /\ proj[1][1] = proj[2][1]
+      /\ DevDir(BuildStep(1))[4] = 2 /\ DevDir(BuildStep(2))[4] = 1)
 \* a directory with content of one variant is handed to another one (must be pruned)
 ReachReuse ==
   ~(primed /\ \E s \in StepSet : DevDir(s) # NoDir /\ disk[DevDir(s)].ex /\ disk[DevDir(s)].st # s.vid /\ s.kind = "build")
@@ -318,11 +323,11 @@ ReachTwins ==
   ~(primed /\ \E s, t \in StepSet : s.kind = "build" /\ t.kind = "build" /\ Recipe(s) # Recipe(t)
                 /\ RelDir(s) # NoDir /\ RelDir(s) = RelDir(t) /\ DevDir(s) # DevDir(t))
 \* clean deletes a build directory / a source directory / keeps a stale directory of a current step
-ReachCleanDeletesBuild == ~(last.cmd = "clean" /\ ~last.dry /\ \E d \in hist[Len(hist)].del : d[2] = "build")
-ReachCleanDeletesSrc == ~(last.cmd = "clean" /\ ~last.dry /\ last.src /\ \E d \in hist[Len(hist)].del : d[2] = "src")
+ReachCleanDeletesBuild == ~(last.cmd = "clean" /\ ~last.dry /\ \E d \in last.del : d[2] = "build")
+ReachCleanDeletesSrc == ~(last.cmd = "clean" /\ ~last.dry /\ last.src /\ \E d \in last.del : d[2] = "src")
 ReachCleanStaleOfCurrent ==
-  ~(last.cmd = "clean" /\ ~last.dry /\ \E d \in hist[Len(hist)].del : \E s \in StepSet : DirIn(last.mode, s) = d)
-ReachDrySkips == ~(last.cmd = "clean" /\ last.dry /\ hist[Len(hist)].del # {})
+  ~(last.cmd = "clean" /\ ~last.dry /\ \E d \in last.del : \E s \in StepSet : DirIn(last.mode, s) = d)
+ReachDrySkips == ~(last.cmd = "clean" /\ last.dry /\ last.del # {})
 
 ----------------------------------------------------------------------------
 (* structured constants for the configs (cfg files cannot hold functions) *)
